@@ -1,7 +1,7 @@
-\* exhaustive check of the design the property requires (FixRevoke = TRUE by default; overridden for the refutation run)
+\* liveness of the required design under weak fairness of the server steps and of the return of blocked calls
 SPECIFICATION FairSpec
-INVARIANT RevokedNotServed NoServiceAfterRevoke RegistryShape PendingOnlyAdmitted
-PROPERTY OthersUnaffected RevokedEventuallyGone
+INVARIANT RevokedNotServed
+PROPERTY RevokedEventuallyGone BlockedCallsReturn
 CHECK_DEADLOCK FALSE
 CONSTANTS
   Conns = {"t", "t2", "b"}
@@ -9,3 +9,6 @@ CONSTANTS
   KeyOf <- MC_KeyOf
   ConnOrder <- MC_Order
   Targets = {"t", "t2"}
+  InOrder = FALSE
+  DiscAfterSetup = FALSE
+  PromptRet = FALSE
